@@ -90,7 +90,7 @@ def run():
                 if not okm:
                     res["failed_modules"].append(m)
                     res["functions_untied"] += spec["functions"].get(m, [])
-                    errs = [l for l in logm.splitlines() if "error" in l][:4]
+                    errs = [l for l in logm.splitlines() if l.startswith("error")][:4]
                     res["detail"] += "%s: %s\n" % (m, " | ".join(errs))
             res["status"] = "broken"
         built = [m for m in spec["modules"] if m not in res["failed_modules"] and
@@ -164,15 +164,27 @@ def run_ws():
             return res
         res["checks_translated"] = info["handlers"]
         res["regenerated"] = info["changed"]
-        key = _cache_key(translate_ws.OUT, ["WsGuards.lean", "Decode.lean", "Ws.lean", os.path.join("Props", "C17.lean")])
+        import translate_wsbody
+        binfo = translate_wsbody.main()
+        if "error" in binfo:
+            res.update(status="untranslatable", detail=binfo["error"])
+            return res
+        res["bodies_translated"] = binfo["handlers"]
+        key = _cache_key(translate_ws.OUT, ["WsGuards.lean", "Decode.lean", "Ws.lean", "Core.lean", "PyWs.lean", "GeneratedWsBody.lean",
+                                            os.path.join("Props", "C17.lean")])
         hit = _cache_get("ws", key)
         if hit is not None:
             hit["cached"] = True
             return hit
-        ok, log = _lake(spec["modules"][0])
-        if not ok:
+        failed = []
+        for m in spec["modules"]:
+            ok, log = _lake(m)
+            if not ok:
+                failed.append(m)
+                res["detail"] += "%s: %s\n" % (m, " | ".join([l for l in log.splitlines() if l.startswith("error")][:4])[-600:])
+        if failed:
             res["status"] = "broken"
-            res["detail"] = " | ".join([l for l in log.splitlines() if "error" in l][:4])[-1200:]
+            res["failed_modules"] = failed
             _cache_put("ws", key, res)
             return res
         res["discharged"], bad = _audit(spec["modules"], spec["theorems"], "WSTIE")
